@@ -23,15 +23,16 @@ func init() {
 		ID:    "C17",
 		Level: "exploration",
 		Rule: "ALL strictly ascending subsets of sizes 1..6 of a 12-string universe built around the recursion x EVERY maxSize 1..len+2; keyzoo sets of up to 300 keys x maxSize in {1,2,3,5,7,16,64,len,len+1}; " +
-			"thorough adds sets of 5000 generated keys with 40-byte common prefixes. Non-trivial+distinct = hash of (keys, maxSize) with >= 2 keys.",
+			"node fan-outs of 255/256/257 children (a prefix key followed by every one-byte continuation) x maxSize around 256; thorough adds sets of 5000 generated keys with 40-byte common prefixes. Non-trivial+distinct = hash of (keys, maxSize) with >= 2 keys.",
 		Assumptions: []string{"non-empty strictly ascending key lists, maxSize >= 1"},
 		Flavours:    releaseThenGo126,
 		Required: []string{"single-key-list", "maxSize=1", "maxSize>=len", "shard/single-key", "shard/full", "key-equals-common-prefix-of-successors", "split/restart-on-shorter-prefix",
-			"first-byte-distinct", "bytes/nul", "bytes/>=0x80", "deep-common-prefix"},
+			"first-byte-distinct", "bytes/nul", "bytes/>=0x80", "deep-common-prefix", "fan-out/257-children", "fan-out/256-children"},
 		Families: func(c *mon.Config) []mon.Family {
 			fams := []mon.Family{
 				{Name: "universe-subsets", N: 1 << 12, Run: c17Subsets},
 				{Name: "keyzoo", N: c.Pick(10000, 2000000), Run: c17Zoo},
+				{Name: "fan-out", N: 3 * 4 * 3, Run: c17FanOut},
 			}
 			if c.Thorough() {
 				fams = append(fams, mon.Family{Name: "large", N: 2000, Run: c17Large})
@@ -239,4 +240,46 @@ func c17Large(w *mon.W, idx int) {
 		w.Tick()
 	}
 	w.Sample(func() interface{} { return mon.D{"nkeys": len(keys), "common_prefix_bytes": 40} })
+}
+
+// c17FanOut builds nodes with the widest possible fan-out: a prefix P, optionally P itself as a key,
+// followed by P+b(+tail) for 255 or all 256 byte values b - up to 257 children of one node.
+func c17FanOut(w *mon.W, idx int) {
+	r := w.Rng
+	prefix := []string{"", "key", "\x00\xff\x00\xff\x00\xff\x00\xff\x00"}[idx%3]
+	shape := (idx / 3) % 4 // 0: P + 256, 1: 256 without P, 2: P + 255, 3: P + 256 with tails (several keys per child)
+	tailMode := idx / 12
+	var keys []string
+	if shape != 1 {
+		keys = append(keys, prefix)
+	}
+	for b := 0; b < 256; b++ {
+		if shape == 2 && b == 77 {
+			continue
+		}
+		k := prefix + string([]byte{byte(b)})
+		switch {
+		case shape == 3 || tailMode == 2:
+			keys = append(keys, k, k+"\x00", k+"z")
+		case tailMode == 1:
+			keys = append(keys, k+string(gen.ZooBytes(r, 1+r.Intn(2))))
+		default:
+			keys = append(keys, k)
+		}
+	}
+	keys = gen.SortedUnique(keys)
+	switch shape {
+	case 0, 3:
+		w.Bucket("fan-out/257-children")
+	default:
+		w.Bucket("fan-out/256-children")
+	}
+	for _, ms := range []int{1, 2, 3, 100, 255, 256, 257, 300, len(keys) - 1, len(keys)} {
+		if !c17Check(w, keys, ms) {
+			return
+		}
+	}
+	w.Sample(func() interface{} {
+		return mon.D{"prefix": fmt.Sprintf("%q", prefix), "shape": shape, "nkeys": len(keys), "what": "one node with 255..257 children"}
+	})
 }
